@@ -222,10 +222,17 @@ func BuildMsg(actors []*Actor, m *MsgSpec) (sdk.Msg, error) {
 	case "grp.create":
 		// a one-member group whose policy passes with that member's vote
 		msg := &group.MsgCreateGroupWithPolicy{Admin: A, Members: []group.MemberRequest{{Address: A, Weight: "1"}}}
-		if err := msg.SetDecisionPolicy(group.NewThresholdDecisionPolicy("1", time.Hour, 0)); err != nil {
+		var pol group.DecisionPolicy = group.NewThresholdDecisionPolicy("1", time.Hour, 0)
+		if m.N == 2 {
+			// a share of the group's total weight instead of an absolute number; short voting period
+			pol = group.NewPercentageDecisionPolicy("0.5", 10*time.Second, 0)
+		}
+		if err := msg.SetDecisionPolicy(pol); err != nil {
 			return nil, err
 		}
 		return msg, nil
+	case "grp.leave":
+		return &group.MsgLeaveGroup{Address: A, GroupId: m.Id}, nil
 	case "grp.submit":
 		// A proposes to policy Id the messages Inner (which name the policy account); N=1: try to execute at once
 		inner := make([]sdk.Msg, 0, len(m.Inner))
